@@ -370,6 +370,38 @@ func checkC14(c *Ctx) {
 		}
 	}
 	c.Note("%d pairs of documented equivalent spellings compared", len(eq))
+
+	// a gitconfig value has exactly the effect of the same string given to the option: both accepted with
+	// identical output, or both rejected (whatever the string: valid, invalid, empty, padded with blanks)
+	raw := map[string][]string{
+		"threshold": {"0", "1", "30", "2.5", "1e1", "+3", "-1", ".5", "5.", "abc", "", " ", "   ", " 5", "5 ", "\t5", "0x10", "1_0", "Inf", "NaN", "1,5"},
+		"names":     {"none", "hash", "sha1", "full", "foo", "", " ", " full", "full ", "Full", "NONE", "sha-1"},
+	}
+	nraw := 0
+	for _, fam := range []string{"threshold", "names"} {
+		for _, v := range raw[fam] {
+			a := env.c14Exec(repoDir, dir, []string{"--no-progress", "-j", "--json-version=2"}, []string{"GIT_CONFIG_COUNT=1", "GIT_CONFIG_KEY_0=sizer." + fam, "GIT_CONFIG_VALUE_0=" + v})
+			b := env.c14Exec(repoDir, dir, []string{"--no-progress", "-j", "--json-version=2", "--" + fam + "=" + v}, nil)
+			ta := env.c14Exec(repoDir, dir, []string{"--no-progress"}, []string{"GIT_CONFIG_COUNT=1", "GIT_CONFIG_KEY_0=sizer." + fam, "GIT_CONFIG_VALUE_0=" + v})
+			tb := env.c14Exec(repoDir, dir, []string{"--no-progress", "--" + fam + "=" + v}, nil)
+			nraw++
+			c.CountEval(4)
+			c.Distinct(fmt.Sprintf("raw:%s=%q", fam, v))
+			why := ""
+			switch {
+			case (a.Exit == 0) != (b.Exit == 0) || (ta.Exit == 0) != (tb.Exit == 0):
+				why = "gitconfig_value_and_option_value_not_accepted_alike"
+			case a.Stdout != b.Stdout || ta.Stdout != tb.Stdout:
+				why = "gitconfig_value_differs_from_option_value"
+			}
+			if why != "" {
+				c.AddViolation(Violation{Predicate: why, Spec: "Cli!Effective (gitconfig = option)", Kind: "cli14raw",
+					Input:    map[string]interface{}{"family": fam, "value": v},
+					Observed: map[string]interface{}{"exit_config": []int{a.Exit, ta.Exit}, "exit_option": []int{b.Exit, tb.Exit}, "stderr": tail(a.Stderr+b.Stderr, 4)}})
+			}
+		}
+	}
+	c.Note("%d raw values given once as gitconfig value and once as option value (JSON v2 and table)", nraw)
 }
 
 func replayC14(c *Ctx, raw json.RawMessage) bool {
@@ -379,6 +411,8 @@ func replayC14(c *Ctx, raw json.RawMessage) bool {
 			Scenario cliScn   `json:"scenario"`
 			A        []string `json:"a"`
 			B        []string `json:"b"`
+			Family   string   `json:"family"`
+			Value    string   `json:"value"`
 		} `json:"input"`
 	}
 	json.Unmarshal(raw, &rp)
@@ -398,6 +432,15 @@ func replayC14(c *Ctx, raw json.RawMessage) bool {
 		b := env.c14Exec(repoDir, dir, append([]string{"--no-progress"}, rp.Input.B...), nil)
 		return a.Exit != 0 || b.Exit != 0 || a.Stdout != b.Stdout
 	}
+	if rp.Kind == "cli14raw" {
+		fam, v := rp.Input.Family, rp.Input.Value
+		cfg := []string{"GIT_CONFIG_COUNT=1", "GIT_CONFIG_KEY_0=sizer." + fam, "GIT_CONFIG_VALUE_0=" + v}
+		a := env.c14Exec(repoDir, dir, []string{"--no-progress", "-j", "--json-version=2"}, cfg)
+		b := env.c14Exec(repoDir, dir, []string{"--no-progress", "-j", "--json-version=2", "--" + fam + "=" + v}, nil)
+		ta := env.c14Exec(repoDir, dir, []string{"--no-progress"}, cfg)
+		tb := env.c14Exec(repoDir, dir, []string{"--no-progress", "--" + fam + "=" + v}, nil)
+		return (a.Exit == 0) != (b.Exit == 0) || (ta.Exit == 0) != (tb.Exit == 0) || a.Stdout != b.Stdout || ta.Stdout != tb.Stdout
+	}
 	s := rp.Input.Scenario
 	a := env.c14Exec(repoDir, dir, renderArgs(s.Args), s.cfgEnv())
 	if s.Err {
@@ -411,6 +454,7 @@ func init() {
 	checks["C14"] = checkC14
 	replays["cli14"] = replayC14
 	replays["cli14eq"] = replayC14
+	replays["cli14raw"] = replayC14
 	replays["cli14mode"] = func(c *Ctx, raw json.RawMessage) bool {
 		var rp struct {
 			Input struct {
